@@ -33,7 +33,7 @@
 EXTENDS Naturals, Integers, Sequences, SequencesExt, FiniteSets, TLC, Json
 
 CONSTANTS MaxHist,      \* number of renders in a history
-          Family,       \* "full" | "core" | "sweep" : which job pool (defined below)
+          Family,       \* "full" | "core" | "impl" | "sweep" : which job pool (defined below)
           Deviations,   \* subset of AllDeviations; {} = the required behaviour
           Cap           \* capacity of the date memo (10 in the code)
 
@@ -143,8 +143,10 @@ PoolCore == << J("TD", "dU", "E0"), J("TD", "dP", "E0"), J("TD", "dM", "EA"),
                J("TA", "dU", "E0"), J("TS", "dU", "E0"),
                J("TI", "dP", "E0"), J("TT", "dU", "EF"), J("TT", "dU", "E0"),
                J("TG", "dU", "E0"), J("TIG", "dU", "E0") >>
+(* the jobs that go through liquid.Template() and its process-wide memo of implicit environments, and one that does not *)
+PoolImpl == << J("TD", "dP", "EI"), J("TD", "dM", "EJ"), J("TW", "dP", "EI"), J("TR", "dP", "EI"), J("TD", "dM", "EA") >>
 PoolSweep == SetToSeq({ J(id, "dU", "E0") : id \in SweepIds })
-Pool == IF Family = "core" THEN PoolCore ELSE IF Family = "sweep" THEN PoolSweep ELSE PoolFull
+Pool == IF Family = "core" THEN PoolCore ELSE IF Family = "sweep" THEN PoolSweep ELSE IF Family = "impl" THEN PoolImpl ELSE PoolFull
 N == Len(Pool)
 
 -----------------------------------------------------------------------------
@@ -398,7 +400,7 @@ Touch(a, b) ==
       /\ Val[Data[ja.d].f].eq = Val[Data[jb.d].f].eq THEN {"datekey"} ELSE {})
 Conf(i) == [j \in 1..(i - 1) |-> Touch(hist[j].job, hist[i].job)]
 Emit == Done => PrintT(ToJson([kind |-> "history", jobs |-> [i \in 1..Len(hist) |-> hist[i].job],
-                               res |-> [i \in 1..Len(hist) |-> hist[i].res],
+                               res |-> IF MaxHist <= 2 THEN [i \in 1..Len(hist) |-> hist[i].res] ELSE <<>>,   \* (= Pure, by HistoryIndependent)
                                conf |-> [i \in 1..Len(hist) |-> Conf(i)]]))
 (* the pool itself, printed once: the jobs, their operations and F(job)       *)
 PoolRecord == [kind |-> "pool", family |-> Family,
